@@ -136,3 +136,116 @@ def run(ctx, n, have_model, max_depth=8):
         for t, i, m in bad[:10]:
             ctx.correspondence_failure({"text": t, "impl": i[:400], "model": m[:400]}, "core fragment: tokenize differs from the lexer model")
     return texts, docs
+
+
+# ---------------------------------------------------------------------------------------------------------------------
+# core2 fragment (Rt/TokRound2.v: parse_core2_doc): + comments, lists of scalars, section markers, META fields
+COMMENTS2 = ["note", "a longer comment", "TODO: x -> y", "", "uni → code", "k::v in a comment"]
+ANNOTS = [None, None, "draft", "v2", "a_b"]
+
+
+def gen_cval(rng):
+    if rng.random() < 0.3:
+        n = rng.choice([0, 1, 2, 2, 3, 4, 6])
+        return ("list", [gen_value(rng) for _ in range(n)])
+    return gen_value(rng)
+
+
+def gen_lead(rng):
+    return [rng.choice(COMMENTS2) for _ in range(rng.choice([0, 0, 0, 1, 2]))]
+
+
+def gen_nodes2(rng, depth, max_depth, max_sibs, budget, top=False):
+    n = rng.randint(1, max_sibs)
+    out = []
+    for i in range(n):
+        if budget[0] <= 0 and out:
+            break
+        budget[0] -= 1
+        key = rng.choice(KEYS)
+        lead = gen_lead(rng)
+        if top and out and out[-1][0] in ("b", "s"):
+            lead = []                                   # top_ok: no leading comment directly after a top-level container
+        r = rng.random()
+        if depth < max_depth and budget[0] > 0 and r < 0.3:
+            out.append(("b", key, None, gen_nodes2(rng, depth + 1, max_depth, max_sibs, budget), lead))
+        elif depth < max_depth and budget[0] > 0 and r < 0.45:
+            sid = rng.choice(["1", "2", "10", "INTRO", "CONTEXT"])
+            out.append(("s", sid, key, rng.choice(ANNOTS), gen_nodes2(rng, depth + 1, max_depth, max_sibs, budget), lead))
+        else:
+            tr = rng.choice([None, None, None, "trailing note", "x -> y"])
+            out.append(("a", key, gen_cval(rng), lead, tr))
+    return out
+
+
+def gen_core2_doc(rng, max_depth=5, max_sibs=3, max_nodes=40):
+    secs = gen_nodes2(rng, 0, max_depth, max_sibs, [max_nodes], top=True)
+    meta = []
+    if rng.random() < 0.5:
+        for k in rng.sample(["TYPE", "VERSION", "OWNER", "TAGS", "N"], rng.randint(1, 3)):
+            meta.append((k, ("v", gen_cval(rng))))
+    trailing = gen_lead(rng)
+    if secs and secs[-1][0] in ("b", "s"):
+        trailing = []
+    sep = rng.random() < 0.3
+    if not meta and not sep and secs and secs[0][1] == "META" and not (secs[0][0] == "s"):
+        sep = True
+    return {"name": rng.choice(["DOC", "SPEC_1"]), "grammar": rng.choice([None, None, "5.1.0"]), "front": None,
+            "sep": sep, "meta": meta, "sections": secs, "trailing": trailing}
+
+
+def shape2_line(d, text):
+    chars = sorted({c for c in text + unicodedata.normalize("NFC", text) if ord(c) >= 128})
+    cls = ",".join(f"{ord(c)}:{lexcorr.cls_flags(c)}" for c in chars) or "-"
+    pairs = [enc_str(l) + "|" + enc_str(unicodedata.normalize("NFC", l)) for l in text.split("\n")]
+    return f"core2shape {cls} {len(pairs)} " + " ".join(pairs) + " " + astcodec.enc_doc(d)
+
+
+def run2(ctx, n, have_model):
+    """core2 stream: implementation round trip on every generated document + the executable hypothesis of
+    C02_text_roundtrip_core2_checked (extracted core2_shape_check) + lexer correspondence."""
+    from octave_mcp.core.emitter import emit
+    from octave_mcp.core.lexer import LexerError
+    from octave_mcp.core.parser import ParserError, parse, parse_with_warnings
+    import random
+    docs, texts = [], []
+    for _ in range(n):
+        rng = random.Random(ctx.rng.random())
+        d = gen_core2_doc(rng, max_depth=rng.choice([2, 3, 5, 8]), max_sibs=rng.choice([2, 3, 4]))
+        t = emit(astcodec.doc_from_neutral(d))
+        docs.append(d)
+        texts.append(t)
+        ctx.count()
+        ctx.nontrivial(("core2", t))
+        case = {"stream": "core2-fragment", "doc": d, "text": t}
+        try:
+            doc = parse(t)
+        except (LexerError, ParserError) as e:
+            ctx.property_failure(case, f"core2 fragment: canonical text rejected by the strict reader ({type(e).__name__})")
+            continue
+        got = astcodec.doc_to_neutral(doc)
+        df = docprops.first_diff(docprops.expected(d), got)
+        if df:
+            ctx.property_failure(case, f"core2 fragment: content differs at {df[0]}: expected {df[1]!r}, read {df[2]!r}"[:300])
+            continue
+        if emit(doc) != t:
+            ctx.property_failure(case, "core2 fragment: canonical text is not a fixpoint of canonicalisation")
+        _, warns = parse_with_warnings(t)
+        bad = [w for w in warns if w.get("type") in ("normalization", "repair_candidate")
+               or (w.get("type") == "lenient_parse" and w.get("subtype") in REWRITE_SUBTYPES)]
+        if bad:
+            ctx.property_failure(dict(case, receipts=[{k: str(v)[:80] for k, v in w.items()} for w in bad[:3]]),
+                                 "core2 fragment: canonical text produced rewrite receipts")
+    if have_model and docs:
+        res = run_driver("syn", [shape2_line(d, t) for d, t in zip(docs, texts)])
+        ctx.count(len(res))
+        for d, t, r in zip(docs, texts, res):
+            ctx.hist("core2_shape_check", {"0": "not-core2", "1": "shape-ok", "2": "MISMATCH", "3": "LEXERR"}.get(r, r))
+            if r in ("2", "3"):
+                ctx.correspondence_failure({"doc": d, "text": t, "core2_shape_check": r},
+                                           "hypothesis of text_roundtrip_core2_checked: model lexer on emit(d) does not have the shape doc2_sh d")
+        bad, nl = lexcorr.compare(texts)
+        ctx.count(nl)
+        for t, i, m in bad[:10]:
+            ctx.correspondence_failure({"text": t, "impl": i[:400], "model": m[:400]}, "core2 fragment: tokenize differs from the lexer model")
+    return texts, docs
